@@ -659,7 +659,8 @@ class BaseNodeVisitor(ast.NodeVisitor):
             ):
                 self.used_ignores.add(lineno - 1)
                 return
-            prev_line = lines[lineno - 2].strip()
+            # the first line has no previous line (lines[-1] would be the last line)
+            prev_line = lines[lineno - 2].strip() if lineno >= 2 else ""
             if (
                 prev_line == ignore_comment
                 or error_code is not None
